@@ -393,7 +393,15 @@ def run_impl(tasks: list[tuple], chunksize: int | None = None) -> list[Any]:
         return []
     if chunksize is None:
         chunksize = max(1, min(32, len(tasks) // (NPROC * 4) or 1))
-    return pool().map(_run_task, tasks, chunksize=chunksize)
+    res = pool().map(_run_task, tasks, chunksize=chunksize)
+    # a case that ran into its limit is run once more, alone: on a machine loaded by other checks the backstop (or a
+    # first import inside the case) may have hit a case that terminates quickly; a case that does not terminate runs
+    # into the limit again
+    late = [i for i, r in enumerate(res) if isinstance(r, dict) and r.get("ok") is False
+            and r.get("err") in ("Timeout", "Other:CaseTimeout")]
+    for i in late[:200]:
+        res[i] = pool().apply(_run_task, (tasks[i],))
+    return res
 
 
 def close_pool() -> None:
